@@ -346,7 +346,9 @@ ITEMS = [
          impl_header="impl<'a> YamlSerializer<'a>", props=['C12', 'C01'],
          pre_rewrites=[(r"fn serialize_tuple_variant\(\s*self,\s*_name: &'static str,\s*_variant_index: u32,\s*variant: &'static str,\s*_len: usize,\s*\) -> Result<Self::SerializeTupleVariant>",
                         "fn serialize_tuple_variant_prologue(&mut self, variant: &'static str, Ghost(pcol): Ghost<int>) -> Result<usize, SerError>", 1, 'R9')],
-         rewrites=[(r'Ok\(TupleVariantSer \{\s*ser: self,\s*depth: ([^,]+),\s*(?:flow: \w+,\s*first: \w+,\s*)?\}\)', r'Ok(\1)', None, 'R9'),
+         rewrites=[(r'scalar_key_to_string\(variant, self\.yaml_12\)\?', 'variant_key_text(variant, self.yaml_12)?', None, 'R8'),
+                   (r'write_str\(&name\)', 'write_str(name.as_str())', None, 'R8'),
+                   (r'Ok\(TupleVariantSer \{\s*ser: self,\s*depth: ([^,]+),\s*(?:flow: \w+,\s*first: \w+,\s*)?\}\)', r'Ok(\1)', None, 'R9'),
                    (r'Ok\(TupleVariantSer \{\s*ser: self,\s*depth,\s*(?:flow: \w+,\s*first: \w+,\s*)?\}\)', r'Ok(depth)', None, 'R9')],
          requires=[('assumed:valid_options', 'old(self).indent_step >= 1'),
                    ('assumed:layout_fits_the_machine', '''old(self).depth + 3 <= usize::MAX && (old(self).current_map_depth is Some ==> old(self).current_map_depth->Some_0 + 3 <= usize::MAX)
